@@ -29,6 +29,11 @@ CLAIMED["C03"] = dict(
   note="Trusted: A-ENGINE, A-SMT, A-INT, A-REAL (no rounding: the relative-tolerance clause for arbitrary floats is not decided); 'shoelace = area', 'first moments/(6A) = centroid' and 'three-case projection formula = minimum distance' are mathematics (the latter stated as two axioms); sin/cos uninterpreted. Not decided: hole detection semantics of area() beyond sign/magnitude, invariance under per-ring rotation/reversal (orbit lemmas not mechanised), op.Centroid/op.Distance.",
   design="DESIGN.md §3 C03")
 
+CLAIMED["C10"] = dict(
+  text="Deductive proof (govc): for an abstract Transformer (a total deterministic function TX/TY/TE of the func value and its arguments that leaves the caller's memory alone) every Transform method returns the receiver itself for a nil transformer, otherwise a fresh geometry of the same type and shape whose k-th vertex is bit-identically (TX,TY) of the k-th input vertex (Point, MultiPoint, LineString, Polygon, MultiLineString by postcondition; MultiPolygon per stored member by assertion; *Bounds becomes the 4-corner polygon), returns nil plus the transformer's error of the first failing vertex, never panics and modifies nothing pre-existing; GeometryCollection dispatches through the interface contract. On the proj side the closure built by NewTransform is proved never to assign its captured source/dest variables, to keep Name/Axis/ToMeter/FromGreenwich/datum of both references, to call only non-nil transformers and adjust_axis within bounds; adjust_axis is proved safe for 2- and 3-element points.",
+  note="Trusted: A-ENGINE, A-SMT, A-INT; the history quantifier (any number of calls, any order, interleaved with other transformers) follows by induction from the proved one-call contract (A-HIST, paper); trusted contracts (listed in the evidence): (*SR).Equal (reflect), Parse/registry, (*SR).Transformers (projection constructors normalise NaN defaults, idempotent), datumTransform; the closure's frame on SR objects other than source/dest is not claimed (it normalises the shared WGS84 definition).",
+  design="DESIGN.md §3 C10")
+
 NA = {}
 
 def main():
